@@ -87,7 +87,15 @@ def _havoc_arr(n, kind, unit=None):
     return Arr(n, kind, lambda i: (False, f(alg.lift(i))), unit)
 
 
+def _raw_carrier_leak(a, what):
+    if hasattr(a, "__pyvc_array__") and not isinstance(a, (Arr, MArr)) and not hasattr(a, "values_arr") and not hasattr(a, "arr"):
+        from .carriers import _leak
+
+        _leak(what)
+
+
 def np_ones_like(a, dtype=None):
+    _raw_carrier_leak(a, "np.ones_like(raw carrier)")
     d = M.dtype_of(dtype) if dtype is not None else a.dtype
     if isinstance(a, MArr):
         raise Unsupported("ones_like of masked array")
@@ -165,6 +173,11 @@ def np_diff(a, n=1):
         raise Unsupported("diff order")
     if isinstance(a, (list, tuple)):
         a = M._as_arr(a)
+    if hasattr(a, "__pyvc_array__") and not isinstance(a, (Arr, MArr)):
+        from .carriers import _leak
+
+        _leak("np.diff(raw carrier)")
+        a = a.__pyvc_array__()
     if not isinstance(a, (Arr, MArr)):
         raise Unsupported("np.diff(%r)" % (type(a),))
     hi = a[1:]
